@@ -32,8 +32,8 @@ func VerifC25ProbeJSON() {
 // VerifC25ProbeCSV: engine support probe for FormatCSVValue.
 func VerifC25ProbeCSV() {
 	var b strings.Builder
-	x := zzverif.Int64("x")
-	zzverif.Assume(zzverif.And(x > -10000, x < 10000))
+	m := zzverif.Param("M")
+	x := int64(zzverif.Choice("x", 2*m-1) - m + 1)
 	formats.FormatCSVValue(&b, octosql.NewInt(x))
 	zzverif.Reach("written")
 	zzverif.Assert(len(b.String()) >= 1, "nonempty")
